@@ -47,9 +47,23 @@ var c10Polluters = []jsProg{
 	{"out-result-edited", `var r = _.out({m: 1}); if (r && typeof r == "object") { r.m = 2; r.leak = {a: 1}; } var r2 = _.out({m: 1, l: [1, {z: 1}]}); if (r2 && r2.l) { r2.l[1].z = 99; r2.l.push("more"); } return {};`},
 	{"out-result-edited-then-throw", `var r = _.out({m: 1}); if (r && typeof r == "object") { r.m = 3; delete r.m; r.gone = true; } throw "after editing";`},
 	{"match-result-edited", `if (_.match) { var r = _.match({"a": "?x"}, {"a": {"k": 1}}, {}); if (r && r[0] && r[0]["?x"]) { r[0]["?x"].k = 2; r[0].extra = 1; r.push({"?y": 1}); } } return {};`},
+	// a helper of the extended environment that fails hands the script an exception: whatever that value inherits from
+	// belongs to this execution; so do the helper functions themselves
+	{"helper-failure-edited", `var errs = []; function grab(f) { try { f(); } catch (e) { errs.push(e); } }
+if (_.cronNext) { grab(function() { _.cronNext(7); }); grab(function() { _.cronNext("not a cron expression"); }); }
+if (_.match) { grab(function() { _.match(function() {}, 1, 2); }); grab(function() { _.match({"?x": 1, "?y": 2}, {}, {}); }); }
+for (var i = 0; i < errs.length; i++) { var p = errs[i]; if (p && typeof p == "object") { p.marker = "own"; p = Object.getPrototypeOf(p); while (p) { p.marker = "leaked"; p.toString = function() { return "hijacked"; }; p.message = "hijacked"; p = Object.getPrototypeOf(p); } } }
+if (_.cronNext) { _.cronNext.calls = 1; Object.getPrototypeOf(_.cronNext).fnleak = 1; }
+if (_.match) { _.match.calls = 1; }
+_.out.calls = 1; return {};`},
 }
 
 var c10Probes = []jsProg{
+	{"helper-failure", `var seen = []; function look(f) { try { f(); seen.push("no failure"); } catch (e) { seen.push(typeof e + ":" + String(e) + ":" + (e && e.marker) + ":" + (e && e.message)); } }
+if (_.cronNext) { look(function() { _.cronNext(7); }); look(function() { _.cronNext("not a cron expression"); }); }
+if (_.match) { look(function() { _.match(function() {}, 1, 2); }); }
+return {seen: seen, calls: [_.cronNext ? _.cronNext.calls : null, _.match ? _.match.calls : null, _.out.calls], fnleak: (function() {}).fnleak === undefined, om: ({}).marker === undefined};`},
+	{"helper-failure-uncaught", `if (_.cronNext) { _.cronNext("not a cron expression"); } return {};`},
 	{"globals", `return {leak: typeof leak, leak2: typeof leak2, leak3: typeof leak3, leak4: typeof leak4};`},
 	{"prototypes", `var o = {}; return {polluted: o.polluted === undefined, ap: [].polluted === undefined, p2: o.p2 === undefined, p3: [].p3 === undefined, sx: "".x === undefined, sneaky: o.sneaky === undefined};`},
 	{"out", `var r = _.out({m: 1}); return {outType: typeof _.out, echo: r};`},
